@@ -35,6 +35,7 @@ func randString(r *rng, maxLen int) string {
 }
 
 func runC16(c *ctx) {
+	stmtC16(c)
 	c.rep.Rule = "strings over an alphabet mixing ASCII, 2-, 3- and 4-byte characters, whitespace and separators (exhaustive up to length 3, " +
 		"random up to 6 and longer); start/length/width/limit over -8..8 incl. fractional values; pad and separator strings of length 0..3; " +
 		"every function compared with the code-point model; inverse laws evaluated as JSONata equalities that must be true (also for the codecs)"
